@@ -32,6 +32,18 @@ from exabgp.configuration.schema import (
 
 from exabgp.configuration.static.parser import prefix
 
+# the value of these statements is an attribute object, not the bare number, address or word the
+# generic validator of their ValueType returns: they are read by the parsers `route ...` uses
+from exabgp.configuration.static.parser import (
+    aigp,
+    atomic_aggregate,
+    attribute,
+    cluster_list,
+    name as named,
+    originator_id,
+)
+from exabgp.configuration.validator import LegacyParserValidator
+
 # Import and re-export _build_route for backward compatibility
 from exabgp.configuration.announce.route_builder import _build_route  # noqa: F401
 
@@ -82,6 +94,7 @@ class AnnounceIP(ParseAnnounce):
             ),
             'atomic-aggregate': Leaf(
                 type=ValueType.ATOMIC_AGGREGATE,
+                validator=LegacyParserValidator(parser_func=atomic_aggregate, name='atomic-aggregate'),
                 description='Atomic aggregate flag',
                 target=ActionTarget.ATTRIBUTE,
                 operation=ActionOperation.ADD,
@@ -96,6 +109,7 @@ class AnnounceIP(ParseAnnounce):
             ),
             'originator-id': Leaf(
                 type=ValueType.IP_ADDRESS,
+                validator=LegacyParserValidator(parser_func=originator_id, name='originator-id'),
                 description='Originator ID',
                 target=ActionTarget.ATTRIBUTE,
                 operation=ActionOperation.ADD,
@@ -103,6 +117,7 @@ class AnnounceIP(ParseAnnounce):
             ),
             'cluster-list': LeafList(
                 type=ValueType.IP_ADDRESS,
+                validator=LegacyParserValidator(parser_func=cluster_list, name='cluster-list'),
                 description='Cluster list',
                 target=ActionTarget.ATTRIBUTE,
                 operation=ActionOperation.ADD,
@@ -131,6 +146,7 @@ class AnnounceIP(ParseAnnounce):
             ),
             'aigp': Leaf(
                 type=ValueType.INTEGER,
+                validator=LegacyParserValidator(parser_func=aigp, name='aigp'),
                 description='Accumulated IGP metric',
                 target=ActionTarget.ATTRIBUTE,
                 operation=ActionOperation.ADD,
@@ -138,6 +154,7 @@ class AnnounceIP(ParseAnnounce):
             ),
             'attribute': Leaf(
                 type=ValueType.HEX_STRING,
+                validator=LegacyParserValidator(parser_func=attribute, name='attribute'),
                 description='Generic BGP attribute',
                 target=ActionTarget.ATTRIBUTE,
                 operation=ActionOperation.ADD,
@@ -145,6 +162,7 @@ class AnnounceIP(ParseAnnounce):
             ),
             'name': Leaf(
                 type=ValueType.STRING,
+                validator=LegacyParserValidator(parser_func=named, name='name'),
                 description='Route name',
                 target=ActionTarget.ATTRIBUTE,
                 operation=ActionOperation.ADD,
